@@ -1,40 +1,25 @@
-// scratch probe: RX160 J4-J6 touch-mode disagreement
-use opwv::mesh::*;
-use opwv::model::*;
-use opwv::scene::*;
+// scratch experiment: wrist folded back (q5 = pi) continuation
+use rs_opw_kinematics::kinematic_traits::Kinematics;
+use rs_opw_kinematics::kinematics_impl::OPWKinematics;
+use rs_opw_kinematics::parameters::opw_kinematics::Parameters;
 fn main() {
-    let rx = rx160_meshes().unwrap();
-    let r = rx160_spec();
-    let j5: f64 = std::env::args().nth(1).map(|s| s.parse().unwrap()).unwrap_or(-2.560412439804398);
-    let j = [0.0, 0.0, 0.0, 0.0, j5, 0.0];
-    let links = r.links(&j);
-    let (g4, g6) = (&rx.links[3], &rx.links[5]);
-    let (t4, t6) = (g4.world_tris(&links[3]), g6.world_tris(&links[5]));
-    println!("oracle dist upto 0.01: {}", mesh_dist_upto(&t4, &t6, 0.01));
-    // find intersecting pairs
-    let mut n = 0;
-    let mut shown = 0;
-    for a in &t4 { for b in &t6 { if tri_tri_dist(a, b) == 0.0 { n += 1; if shown < 3 { shown += 1; println!("pair {:?}\n     {:?}", a, b);
-        let ta = parry3d::shape::Triangle::new(nalgebra::Point3::new(a[0][0] as f32,a[0][1] as f32,a[0][2] as f32), nalgebra::Point3::new(a[1][0] as f32,a[1][1] as f32,a[1][2] as f32), nalgebra::Point3::new(a[2][0] as f32,a[2][1] as f32,a[2][2] as f32));
-        let tb = parry3d::shape::Triangle::new(nalgebra::Point3::new(b[0][0] as f32,b[0][1] as f32,b[0][2] as f32), nalgebra::Point3::new(b[1][0] as f32,b[1][1] as f32,b[1][2] as f32), nalgebra::Point3::new(b[2][0] as f32,b[2][1] as f32,b[2][2] as f32));
-        let id = nalgebra::Isometry3::identity();
-        println!("   parry tri-tri intersect {:?} dist {:?}", parry3d::query::intersection_test(&id, &ta, &id, &tb), parry3d::query::distance(&id, &ta, &id, &tb));
-    } } } }
-    println!("intersecting triangle pairs: {}", n);
-    for h in [1e-4, 2e-4, 5e-4, 1e-3, 2e-3, 3e-3, 5e-3, 1e-2] {
-        let mut sep = false;
-        for axis in 0..3 { for sg in [-1.0, 1.0] {
-            let mut sh = [0.0; 3]; sh[axis] = sg * h;
-            let moved: Vec<Tri> = t6.iter().map(|t| [add(&t[0], &sh), add(&t[1], &sh), add(&t[2], &sh)]).collect();
-            if mesh_dist_upto(&t4, &moved, 1e-3) > 0.0 { sep = true; }
-        } }
-        println!("nudge {:e}: separable {}", h, sep);
+    for (name, p) in [("custom", Parameters { a1: 0.15, a2: 0.0, b: 0.0, c1: 0.55, c2: 0.625, c3: 0.625, c4: 0.11, offsets: [0.0; 6], sign_corrections: [1; 6], dof: 6 }), ("irb2400", Parameters::irb2400_10()), ("tx2_160l", Parameters::staubli_tx2_160l()), ("kr6", Parameters::kuka_kr6_r700_sixx())] {
+    println!("== {}", name);
+    let k = OPWKinematics::new(p);
+    for q5 in [0.0, std::f64::consts::PI, -std::f64::consts::PI] {
+        for (j4, j6) in [(0.0, 0.0), (0.4, 0.3), (-1.0, 2.0)] {
+            let q = [0.2, 0.1, 1.2, j4, q5, j6];
+            let pose = k.forward(&q);
+            let mut prev = q;
+            prev[5] -= 0.5;
+            let plain = k.inverse(&pose);
+            let cont = k.inverse_continuing(&pose, &prev);
+            let on = |s: &[f64; 6]| (0..3).all(|t| (s[t] - q[t]).abs() < 1e-4);
+            println!("q5={:.3} j4={} j6={}: plain {} (on-branch {}), continuing {} (on-branch {}), singular={:?}", q5, j4, j6, plain.len(), plain.iter().filter(|s| on(s)).count(), cont.len(), cont.iter().filter(|s| on(s)).count(), k.kinematic_singularity(&q));
+            for s in cont.iter().filter(|s| on(s)) {
+                println!("    {:?}", s);
+            }
+        }
     }
-    let p4 = iso_to_f32(&links[3]); let p6 = iso_to_f32(&links[5]);
-    let (m4, m6) = (g4.trimesh(), g6.trimesh());
-    println!("parry intersection_test: {:?}", parry3d::query::intersection_test(&p4, &m4, &p6, &m6));
-    println!("parry intersection_test swapped: {:?}", parry3d::query::intersection_test(&p6, &m6, &p4, &m4));
-    println!("parry distance: {:?}", parry3d::query::distance(&p4, &m4, &p6, &m6));
+    }
 }
-#[allow(dead_code)]
-fn depth() {}
